@@ -45,7 +45,20 @@ def handle (j : Json) : Json :=
         ("created", match r.out.created with | some i => Json.str i | none => Json.null),
         ("claimed", match r.out.claimed with | some t => Json.str t.id | none => Json.null),
         ("pruned", Json.arr (r.out.pruned.map Json.str).toArray),
+        ("reply", match replyOf (envOf (j.getObjValD "env")) req r with | some x => replyJson x | none => Json.null),
         ("post", post)]
+  | "view" =>
+    -- the JSON values of `list` / `show` for a log
+    match replay ((arr j "events").map eventOf) with
+    | .error e => Json.mkObj [("err", replayErrStr e)]
+    | .ok g =>
+      let lists := (arr j "lists").map fun o =>
+        Json.arr ((listJson g { epicId := str o "epic", readyOnly := bool o "ready", showAll := bool o "all", showEpics := bool o "epics" }).map listItemJson).toArray
+      let shows := (strs j "shows").map fun id => match showJson g id with
+        | .error e => Json.mkObj [("err", errStr e)]
+        | .ok (.item i) => Json.mkObj [("item", showItemJson i)]
+        | .ok (.epic e kids) => Json.mkObj [("epic", showItemJson e), ("children", Json.arr (kids.map showItemJson).toArray)]
+      Json.mkObj [("lists", Json.arr lists.toArray), ("shows", Json.arr shows.toArray)]
   | "render" =>
     let cellsOf (k : String) : Ergo.Render.Str := (arr j k).filterMap fun x => match x with
       | .arr #[.num c, .num w] => some ⟨Char.ofNat c.mantissa.toNat, w.mantissa.toNat⟩ | _ => none
